@@ -830,6 +830,22 @@ def check_config(res, spec, ws, index=0, pre=None):
                            f'membership of the original pixel region (first: pixel ({float(qx[k])!r}, {float(qy[k])!r}), got {bool(arr[k])}, '
                            f'reference {bool(want[k])})', bool(want[k]), bool(arr[k]))
                     break
+        # compounds: a batch for all of whose positions operand 1 answers False (and one for operand 2) -- the answer for a
+        # position must not depend on what else is in the batch
+        if cls == 'compound' and a is not None and np.shape(a) == qx.shape:
+            for opn in ('r1', 'r2'):
+                try:
+                    inside_op, _s = G.Ref(spec[opn]).member_flagged(qx, qy)       # the operand's own answer (its include flag applied)
+                except Exception:          # noqa: BLE001 -- nested operand without a simple reference
+                    continue
+                sub = np.flatnonzero(~np.asarray(inside_op, bool) & rb)
+                if sub.size < 2:
+                    continue
+                a_sub = _call(cx, f'SkyRegion.contains(batch outside {opn})', lambda: S1.contains(sc[sub], w))
+                res.transitions += 1
+                if a_sub is not None and (np.shape(a_sub) != sub.shape or np.any(np.asarray(a_sub, bool) != np.asarray(a, bool)[sub])):
+                    cx.bad('contains_depends_on_batch', f'sky compound: the answers for the {sub.size} robust positions outside {opn} differ when '
+                                                        f'they are asked alone from when they are asked together with the other positions')
         # one scalar query on every second configuration (alternating between the two decoration variants of
         # consecutive geometries): a robust member or a robust non-member, alternating every four configurations
         cand = np.flatnonzero(rb & (want if (index >> 2) % 2 == 0 else ~want))
